@@ -335,3 +335,24 @@ Fixpoint sc_run (c : scache) (l : list (N * str)) : list str :=
   | [] => []
   | (p, text) :: l' => let (t, c') := sc_lookup c p text in t :: sc_run c' l'
   end.
+
+(* ------------------------------------------- histories with several saveLog calls
+   saveLog iterates over threadTrace under the lock and changes nothing: neither the map nor any
+   event list.  A history interleaves recorder operations with saves; every save sees the map as
+   it is at that moment. *)
+Inductive hop := HRec (o : rop) | HSave.
+
+Definition hist_step (r : reg) (x : hop) : reg :=
+  match x with HRec o => reg_step r o | HSave => r end.
+Definition hist_final (r : reg) (h : list hop) : reg := fold_left hist_step h r.
+
+(* the map each saveLog call iterates over, in call order *)
+Fixpoint hist_saves (r : reg) (h : list hop) : list reg :=
+  match h with
+  | [] => []
+  | HRec o :: h' => hist_saves (reg_step r o) h'
+  | HSave :: h' => r :: hist_saves r h'
+  end.
+
+Definition ops_of (h : list hop) : list rop :=
+  flat_map (fun x => match x with HRec o => [o] | HSave => [] end) h.
